@@ -134,6 +134,7 @@ type xferDir struct {
 	writerDone bool
 	msgs       []*msgRec
 	emptyWrites int
+	failedOdd   int // rejected / failed calls other than empty writes
 }
 
 func (d *xferDir) reliable() bool { return d.relType == ReliabilityTypeReliable }
@@ -717,14 +718,21 @@ func (x *xfer) oddWrite(d *xferDir, st *simStream, s *Stream) {
 		// a blocking write whose deadline is already over / very near
 		dl := time.Duration(pick(tp, 0, 1, 20, 200)) * time.Millisecond
 		_ = s.SetWriteDeadline(time.Now().Add(dl))
-		m := w.newMsg(st, 1+tp.intn(2000), false)
+		// (sometimes a DCEP message: those are ordered even on an unordered stream, so the
+		// roll-back of a failed write concerns a different counter than the stream's mode suggests)
+		asDCEP := d.dcep != nil && tp.intn(2) == 0
+		m := w.newMsg(st, 8+tp.intn(2000), asDCEP)
 		m.odd = "deadline"
 		m.unordered, m.relType, m.relVal = d.unordered, d.relType, d.relVal
+		if asDCEP {
+			x.index[uint32(m.id)|0x80000000] = m
+		}
 		x.index[m.ppi] = m
 		w.write(st, m)
 		_ = s.SetWriteDeadline(time.Time{})
 		if m.err != nil {
 			x.odd = append(x.odd, m)
+			d.failedOdd++
 			if m.n != 0 {
 				w.violate("C18", "failed-write-length", "%s stream %d: a blocking write that failed with %v returned n=%d", ep.name, d.sid, m.err, m.n)
 			}
